@@ -108,3 +108,20 @@ PROPS["C13"] = {
                  "exhaustive_note": "all 2^32 values of each 32-bit storage kind (int32, uint32, float) x 13 target types", "floor_evaluations": 12000000000},
     "regress": ["linked_string_as_double", "long_numeric_string"],
 }
+
+PROPS["C17"] = {
+    "title": "Unicode escapes decode correctly for every code point; escaping is the inverse",
+    "src": "c17.cpp",
+    "level": "exploration",
+    "technique": "exhaustive enumeration of the escape space against an own 20-line UTF-8 encoder and the reference printer, plus random mixed strings",
+    "rule": "sweep (complete): every \\uXXXX code unit in lower/upper/mixed hex case as whole string, key and embedded; every high/low surrogate pair; every lone surrogate and (high, non-low) combination for safety; every single byte and byte pair as string value and as key through set -> serializeJson -> deserializeJson. Every enumerated case is distinct by construction and non-trivial (it is compared with the reference), except lone surrogates which are safety-only. Random: strings of 1-12 scalars mixing raw and escaped spellings.",
+    "level_text": "The quantifier of the property (all code units, all surrogate pairs, all bytes and byte pairs) is a finite space and is enumerated completely on every run (exhaustive: true); the oracle is an independent UTF-8 encoder and an independent escaper.",
+    "level_note": "ARDUINOJSON_DECODE_UNICODE=1 (default) only, as the property states. Content of strings with unpaired surrogates is not judged (only absence of crashes).",
+    "quick": {"cases": 200000, "sweep": True, "exhaustive_claim": True,
+              "exhaustive_note": "65536 code units x 3 hex cases x 3 contexts, 1024x1024 surrogate pairs, 256 + 65536 byte contents x {value,key}",
+              "floor_evaluations": 1500000, "floor_nontrivial": 1000000},
+    "thorough": {"cases": 20000000, "sweep": True, "exhaustive_claim": True,
+                 "exhaustive_note": "65536 code units x 3 hex cases x 3 contexts, 1024x1024 surrogate pairs, 256 + 65536 byte contents x {value,key}",
+                 "floor_evaluations": 1500000},
+    "regress": ["nul_in_key"],
+}
